@@ -321,7 +321,58 @@ func (r *rewriter) rewriteForRange(pkg loader.Pkg, fr *ast.RangeStmt) *ast.ForSt
 		X.Assign(fr.Tok, fr.Key, X.Call(current)),
 		fr.Body.List...,
 	)
+	if fr.Tok == token.DEFINE && declaresInBlock(fr.Body, fr.Key) {
+		// wrap BlockStmt, prevent from name conflicting
+		// for v := range it { v := ... }
+		// 	=>
+		// for it.MoveNext() { v := it.Current(); { v := ... } }
+		body = X.Block(
+			X.Assign(fr.Tok, fr.Key, X.Call(current)),
+			fr.Body,
+		)
+	}
 	return X.ForStmt(init, cond, nil, body)
+}
+
+// declaresInBlock reports if name is declared again by a stmt of the block itself
+func declaresInBlock(block *ast.BlockStmt, name ast.Expr) bool {
+	id, ok := name.(*ast.Ident)
+	if !ok {
+		return false
+	}
+	for _, stmt := range block.List {
+		switch stmt := stmt.(type) {
+		case *ast.AssignStmt:
+			if stmt.Tok != token.DEFINE {
+				continue
+			}
+			for _, lhs := range stmt.Lhs {
+				if lhs, ok := lhs.(*ast.Ident); ok && lhs.Name == id.Name {
+					return true
+				}
+			}
+		case *ast.DeclStmt:
+			decl, ok := stmt.Decl.(*ast.GenDecl)
+			if !ok {
+				continue
+			}
+			for _, spec := range decl.Specs {
+				switch spec := spec.(type) {
+				case *ast.ValueSpec:
+					for _, n := range spec.Names {
+						if n.Name == id.Name {
+							return true
+						}
+					}
+				case *ast.TypeSpec:
+					if spec.Name.Name == id.Name {
+						return true
+					}
+				}
+			}
+		}
+	}
+	return false
 }
 
 // ↓↓↓↓↓↓↓↓↓↓↓↓↓↓↓↓↓↓↓↓↓↓ Rewrite co.Iter ↓↓↓↓↓↓↓↓↓↓↓↓↓↓↓↓↓↓↓↓↓↓
